@@ -172,6 +172,12 @@ class Grid(object):
                     pvalue = int(line[1].strip())
                 else:
                     pvalue = float(line[1].strip())
+                    if pname.startswith("nodata") and abs(pvalue) >= 2**53:
+                        # keep large integer no data values exact
+                        try:
+                            pvalue = int(line[1].strip())
+                        except ValueError:
+                            pass
 
                 if pname.startswith("parent"):
                     parent_config[pname] = pvalue
@@ -555,6 +561,9 @@ class Grid(object):
                             "yllcorner", "cellsize"]:
                 attval = getattr(self, attname)
                 fh.write("{0:<14} {1}\n".format(attname.upper(), attval))
+
+            # no data value
+            fh.write("{0:<14} {1}\n".format("NODATA_VALUE", self.nodata))
 
             # nbits
             ddtype = np.dtype(self.dtype)
